@@ -2,9 +2,11 @@
 void engineCache(const std::vector<std::string> &, const std::vector<std::string> &);
 void engineCodec(const std::vector<std::string> &, const std::vector<std::string> &);
 void engineActor(const std::vector<std::string> &, const std::vector<std::string> &);
+void engineValues(const std::vector<std::string> &, const std::vector<std::string> &);
 void registerAllEngines()
 {
     registerEngine("cache", engineCache);
     registerEngine("codec", engineCodec);
+    registerEngine("values", engineValues);
     for (const char *n : {"actor", "prober", "hostname", "provider", "browser", "resolver"}) registerEngine(n, engineActor);
 }
